@@ -92,6 +92,7 @@ type Sched struct {
 	access   map[string]*lastAccess
 	Trace    []string // executed actions with labels (diagnostics)
 	wg       sync.WaitGroup
+	pools    []*Pool
 }
 
 var active atomic.Pointer[Sched]
@@ -311,6 +312,9 @@ func (s *Sched) Describe() string {
 	}
 	sort.Strings(mus)
 	sb.WriteString(strings.Join(mus, ","))
+	for i, p := range s.pools {
+		fmt.Fprintf(&sb, ";pool%d=%d", i, len(p.items))
+	}
 	return sb.String()
 }
 
